@@ -237,7 +237,35 @@ def spec_values(atoms):
 
 
 # ------------------------------------------------------------------------------------------ execute
+_MEM_CAP = 3 << 30
+
+
 def execute(line: str):
+    """Runs the case with the address space capped at 3 GiB: a defect that shifts positional values (a token wrongly taken
+    for a bare keyword token, a factor-0 group that consumes values) can hand a 64-bit integer to `Bits(n)`; that must end as
+    a MemoryError of the call - an observable, undocumented outcome - not as the kernel killing the check."""
+    import resource, gc
+    soft, hard = resource.getrlimit(resource.RLIMIT_AS)
+    capped = False
+    try:
+        if soft == resource.RLIM_INFINITY or soft > _MEM_CAP:
+            resource.setrlimit(resource.RLIMIT_AS, (_MEM_CAP, hard)); capped = True
+    except (ValueError, OSError):
+        pass
+    try:
+        return _execute(line)
+    except MemoryError:
+        gc.collect()
+        return "err Internal:MemoryError", {"memory_error": True}
+    finally:
+        if capped:
+            try:
+                resource.setrlimit(resource.RLIMIT_AS, (soft, hard))
+            except (ValueError, OSError):
+                pass
+
+
+def _execute(line: str):
     f = line.split(SEP)
     op, extra = f[1], {}
     clear_caches()
@@ -390,6 +418,8 @@ def _expect_error(spec, out, what):
 def oracle(line: str, out: str, extra: dict):
     f = line.split(SEP)
     op = f[1]
+    if extra.get("memory_error"):
+        return f"{op} {unesc(f[2])!r}: the call exhausted the 3 GiB memory cap (MemoryError is not a documented outcome)"
     if op in ("expand", "tok"):
         exp = f[-1]
         if out.startswith("err Internal"):
@@ -514,7 +544,10 @@ class Ctx:
         """a fresh keyword name for the value `v`: an ordinary name, or — to tell a bare keyword token from a token that
         merely shares its name with a keyword — the name of a dtype / alias, preferably the one of the token it is used in"""
         k = None
-        if self.rng.random() < 0.4:
+        # (large integers keep ordinary names: an implementation that mistook such a token for a bare keyword token would
+        # build BitStream(n) with n zero bits and exhaust the memory instead of producing a wrong answer)
+        small = not (isinstance(v, int) and not isinstance(v, bool) and v > 4096)
+        if small and self.rng.random() < 0.4:
             cand = own if (own is not None and self.rng.random() < 0.6) else self.rng.choice(DTYPE_KEYS)
             if cand not in self.kw:
                 k = cand
